@@ -466,6 +466,7 @@ class Sink(io.RawIOBase):
         self.stall_at = stall_at    # I/O fault: the reader stops reading for a while once this many bytes were written
         self.released = False
         self.waiting = False
+        self.broken = False
         self.patience = 0           # how many scheduling rounds the reader stays away at least
 
     def writable(self):
@@ -490,6 +491,7 @@ class Sink(io.RawIOBase):
             s = CUR
             if s is not None:
                 s.count("fault.own_stdout_EPIPE_after_n_bytes")
+            self.broken = True
             raise BrokenPipeError(errno.EPIPE, "Broken pipe")
         self.data += bytes(b)
         return len(b)
@@ -1361,6 +1363,7 @@ class Inv:
         self.ki = 0
         self.sig_where = None
         self.sigdeath = None
+        self.stdout_broken = False
         self.kill_where = None
         self.exit_hang = False
         self.plan = None
@@ -2207,6 +2210,7 @@ class Sim:
             gc.collect(0)
             if gc_was:
                 gc.enable()
+        inv.stdout_broken = bool(osink.broken)      # some write to the own stdout met EPIPE (also the flush at exit)
         inv.out = bytes(osink.data)
         inv.err = bytes(esink.data)
         inv.trace = self.trace
